@@ -5,7 +5,7 @@ import fractions
 import z3
 
 from . import loader
-from .core import (REG, RefV, Ty, VerifError, T_INT, T_FLOAT, T_BOOL, T_ANY, parse_type, sort_of, type_of_value)
+from .core import (REG, RefV, StructV, Ty, VerifError, T_INT, T_FLOAT, T_BOOL, T_ANY, parse_type, sort_of, type_of_value)
 from .values import (FuncV, BuiltinV, ClassV, ModuleV, SuperV, LambdaV, ExcV, RangeV, EnumV, ZipV, GenV, Frame,
                      RaiseSig)
 
@@ -396,6 +396,8 @@ class ExprMixin(object):
                 return self.spec_env[name]
             if name in REG.specs or name in REG.ufuncs or name in self.SPEC_FUNCS:
                 return BuiltinV("spec:" + name)
+            if name == "inf":
+                return self.ctx.num.const(float("inf"))
             if name.startswith("draw") and name[4:].isdigit():
                 k = int(name[4:])
                 if k < len(self.ctx.draws):
@@ -545,6 +547,8 @@ class ExprMixin(object):
                 if attr in REG.any_field and info is None:
                     return ctx.read_field(base, attr, REG.any_field[attr])
                 raise VerifError("field %s.%s has no declared type (add cls(...) to the sidecar)" % (b.name, attr))
+        if isinstance(base, StructV):
+            return base[base.field_index(attr)]
         if isinstance(base, BuiltinV):
             return BuiltinV(base.name + "." + attr, base.recv)
         if isinstance(base, ExcV):
@@ -641,7 +645,8 @@ class ExprMixin(object):
             ty = a.ty if isinstance(a, RefV) else b.ty
             return RefV(z3.If(c, self.Z(a), self.Z(b)), ty)
         if isinstance(a, tuple) and isinstance(b, tuple) and len(a) == len(b):
-            return tuple(self.ite(c, x, y) for x, y in zip(a, b))
+            items = [self.ite(c, x, y) for x, y in zip(a, b)]
+            return StructV(items, a.ty) if isinstance(a, StructV) else tuple(items)
         A, B = self.Z(a), self.Z(b)
         if A.sort() != B.sort():
             A, B = self.ctx.to_float(A), self.ctx.to_float(B)
